@@ -368,9 +368,36 @@ fn cmd_fp(a: &[Sx]) -> Result<String, String> {
 	})
 }
 
+fn cmd_jsonread(a: &[Sx]) -> Result<String, String> {
+	// jsonread xBYTES : serde_json's reading of a text alone, as the crate uses it for the reported JSON of a parsed schema
+	// (serde_transcode from a serde_json Deserializer to the compact Serializer, then Deserializer::end):
+	//   (ok xCOMPACT) | (err xMSG)
+	// bytes that are a str go through Deserializer::from_str (the crate's path, StrRead), other bytes through from_slice
+	// (SliceRead, which checks the UTF-8 of string contents itself)
+	let bytes = a[0].bytes()?;
+	fn go<'de, R: serde_json::de::Read<'de>>(mut de: serde_json::Deserializer<R>) -> Result<Vec<u8>, serde_json::Error> {
+		let mut ser = serde_json::Serializer::new(Vec::new());
+		serde_transcode::transcode(&mut de, &mut ser)?;
+		de.end()?;
+		Ok(ser.into_inner())
+	}
+	let r = match std::str::from_utf8(&bytes) {
+		Ok(s) => go(serde_json::Deserializer::from_str(s)),
+		Err(_) => go(serde_json::Deserializer::from_slice(&bytes)),
+	};
+	Ok(match r {
+		Ok(out) => format!("(ok {})", hex(&out)),
+		Err(e) => format!("(err {})", esc(&e.to_string())),
+	})
+}
+
 fn cmd_parse(a: &[Sx]) -> Result<String, String> {
 	// parse xJSON : nodes, canonical form, fingerprint, reported json
-	let text = a[0].string()?;
+	// bytes that are not UTF-8 are not a &str: there is no call of SchemaMut::from_str for them -> (not-str)
+	let text = match String::from_utf8(a[0].bytes()?) {
+		Ok(t) => t,
+		Err(_) => return Ok("(not-str)".into()),
+	};
 	Ok(match text.parse::<serde_avro_fast::schema::SchemaMut>() {
 		Err(e) => format!("(err {})", esc(&e.to_string())),
 		Ok(s) => {
@@ -529,6 +556,7 @@ fn run_case(line: &str) -> String {
 		"de" => cmd_de(args),
 		"fp" => cmd_fp(args),
 		"parse" => cmd_parse(args),
+		"jsonread" => cmd_jsonread(args),
 		"freeze" => cmd_freeze(args),
 		"mutseq" => cmd_mutseq(args),
 		"tojson" => cmd_tojson(args),
